@@ -48,6 +48,7 @@ VarNames(sig) == { sig.vars[i][1] : i \in 1..Len(sig.vars) }
 VarT(sig, nm) == sig.vars[CHOOSE i \in 1..Len(sig.vars) : sig.vars[i][1] = nm][2]
 IsEnum(sig, t) == t[1] = "const" /\ t[3] = NatT /\ \E i \in 1..Len(sig.enum) : sig.enum[i] = t[2]
 EnumIdx(sig, nm) == (CHOOSE i \in 1..Len(sig.enum) : sig.enum[i] = nm) - 1
+EIdx(enum) == [nm \in Rng(enum) |-> (CHOOSE i \in 1..Len(enum) : enum[i] = nm) - 1]
 IsSysVar(sig, t, T) == IsVar(t) /\ t[3] = T /\ t[2] \in VarNames(sig) /\ VarT(sig, t[2]) = T
 IsParam(t, P) == IsVar(t) /\ t[3] = NatT /\ t[2] \in P
 VarTypesOK(sig) == /\ \A i \in 1..Len(sig.vars) : sig.vars[i][2] \in {NatT, BoolT, ArrT(NatT), ArrT(BoolT)}
@@ -76,6 +77,7 @@ SupB(t, sig, P) ==
                             \/ EqT(t) = ScalT /\ SupS(t[2][3], sig, P) /\ SupS(t[3], sig, P)
   \/ IsSysVar(sig, t, BoolT)
   \/ t[1] = "comb" /\ IsSysVar(sig, t[2], ArrT(BoolT)) /\ SupIdx(t[3], sig, P)
+  \/ IsApp3(t, "IF") /\ SupB(t[2][2][3], sig, P) /\ SupB(t[2][3], sig, P) /\ SupB(t[3], sig, P)
   \/ (IsApp1(t, "all") \/ IsApp1(t, "exists")) /\ t[3][1] = "abs" /\ t[3][2] = NatT
      /\ \A d \in 1..sig.N : SupB(SubstBound(t[3], Num(d)), sig, P)
 SupState(t, sig, P) ==
@@ -89,12 +91,15 @@ SupS(t, sig, P) ==
 \* ------------------------------------------------------------------------------------------------ the interpreter
 \* e = [sig, st, pv]: pv maps parameter names to process indices; DOMAIN e.pv = the P the term was found supported with
 RECURSIVE EvalN(_,_), EvalB(_,_), EvalS(_,_), LookupState(_,_,_)
+\* (the tests follow the shape analysis of SupN / SupB: a term is only evaluated after it was found supported)
 EvalN(t, e) ==
-  IF IsNum(t) THEN NumVal(t)
-  ELSE IF t[1] = "const" THEN EnumIdx(e.sig, t[2])
-  ELSE IF IsVar(t) THEN (IF t[2] \in DOMAIN e.pv THEN e.pv[t[2]] ELSE e.st[t[2]])
-  ELSE IF IsApp3(t, "IF") THEN (IF EvalB(t[2][2][3], e) THEN EvalN(t[2][3], e) ELSE EvalN(t[3], e))
-  ELSE e.st[t[2][2]][EvalN(t[3], e)]
+  IF t[1] = "comb" THEN
+     LET f == t[2] IN
+     IF f[1] = "const" THEN (IF f[2] = "of_nat" THEN BitsVal(t[3]) ELSE BitsVal(t))
+     ELSE IF f[1] = "comb" THEN (IF EvalB(f[2][3], e) THEN EvalN(f[3], e) ELSE EvalN(t[3], e))
+     ELSE e.st[f[2]][EvalN(t[3], e)]
+  ELSE IF t[1] = "const" THEN (IF t[2] = "zero" THEN 0 ELSE IF t[2] = "one" THEN 1 ELSE e.sig.eidx[t[2]])
+  ELSE IF t[2] \in DOMAIN e.pv THEN e.pv[t[2]] ELSE e.st[t[2]]
 \* cells of the encoded state: <<"I", v, 0>> = Ident v,  <<"P", v, i>> = Para (Ident v) i
 CellOf(t, e) == IF IsApp1(t, "Ident") THEN <<"I", NumVal(t[3]), 0>> ELSE <<"P", NumVal(t[2][3][3]), EvalN(t[3], e)>>
 \* value of a cell in the concrete state: <<"N", n>>, <<"B", 0/1>>; cells that belong to no variable hold junk of their own
@@ -113,19 +118,25 @@ EvalS(t, e) ==
   ELSE IF IsApp1(t, "BoolV") THEN <<"B", IF EvalB(t[3], e) THEN 1 ELSE 0>>
   ELSE LookupState(t[2], CellOf(t[3], e), e)
 EvalB(t, e) ==
-  IF IsC(t, "true") THEN TRUE ELSE IF IsC(t, "false") THEN FALSE
-  ELSE IF IsApp1(t, "neg") THEN ~EvalB(t[3], e)
-  ELSE IF IsApp2(t, "conj") THEN EvalB(t[2][3], e) /\ EvalB(t[3], e)
-  ELSE IF IsApp2(t, "disj") THEN EvalB(t[2][3], e) \/ EvalB(t[3], e)
-  ELSE IF IsApp2(t, "implies") THEN EvalB(t[2][3], e) => EvalB(t[3], e)
-  ELSE IF IsApp2(t, "equals") THEN
-       (IF EqT(t) = NatT THEN EvalN(t[2][3], e) = EvalN(t[3], e)
-        ELSE IF EqT(t) = BoolT THEN EvalB(t[2][3], e) = EvalB(t[3], e)
-        ELSE EvalS(t[2][3], e) = EvalS(t[3], e))
-  ELSE IF IsVar(t) THEN e.st[t[2]] = 1
-  ELSE IF IsApp1(t, "all") THEN \A d \in 1..e.sig.N : EvalB(SubstBound(t[3], Num(d)), e)
-  ELSE IF IsApp1(t, "exists") THEN \E d \in 1..e.sig.N : EvalB(SubstBound(t[3], Num(d)), e)
-  ELSE e.st[t[2][2]][EvalN(t[3], e)] = 1
+  IF t[1] = "comb" THEN
+     LET f == t[2] IN
+     IF f[1] = "comb" THEN
+        IF f[2][1] = "comb" THEN (IF EvalB(f[2][3], e) THEN EvalB(f[3], e) ELSE EvalB(t[3], e)) ELSE      \* if-then-else
+        LET op == f[2][2] IN
+        IF op = "equals" THEN (LET T == f[2][3][3][1][2] IN
+                               IF T = "nat" THEN EvalN(f[3], e) = EvalN(t[3], e)
+                               ELSE IF T = "bool" THEN EvalB(f[3], e) = EvalB(t[3], e)
+                               ELSE EvalS(f[3], e) = EvalS(t[3], e))
+        ELSE IF op = "conj" THEN EvalB(f[3], e) /\ EvalB(t[3], e)
+        ELSE IF op = "disj" THEN EvalB(f[3], e) \/ EvalB(t[3], e)
+        ELSE EvalB(f[3], e) => EvalB(t[3], e)
+     ELSE IF f[1] = "const" THEN
+        (IF f[2] = "neg" THEN ~EvalB(t[3], e)
+         ELSE IF f[2] = "all" THEN \A d \in 1..e.sig.N : EvalB(SubstBound(t[3], Num(d)), e)
+         ELSE \E d \in 1..e.sig.N : EvalB(SubstBound(t[3], Num(d)), e))
+     ELSE e.st[f[2]][EvalN(t[3], e)] = 1
+  ELSE IF t[1] = "const" THEN t[2] = "true"
+  ELSE e.st[t[2]] = 1
 Env(sig, st, pv) == [sig |-> sig, st |-> st, pv |-> pv]
 
 \* ------------------------------------------------------------------------------------------------ rules
@@ -203,7 +214,7 @@ ScopeOf(base, terms, P) ==
   LET names == UNION { NamesIn(t) : t \in terms }
       cs == UNION { ConstsIn(t, base) : t \in terms }
       pv == IF \E t \in terms : ParamAsValue(t, P) THEN 1..base.N ELSE {} IN
-  [vars |-> base.vars, enum |-> base.enum, N |-> base.N, sup |-> names \cap VarNames(base),
+  [vars |-> base.vars, enum |-> base.enum, eidx |-> EIdx(base.enum), N |-> base.N, sup |-> names \cap VarNames(base),
    vals |-> cs \cup pv \cup {Fresh(cs \cup pv)}]
 
 \* ------------------------------------------------------------------------------------------------ the subgoal calculus
@@ -244,29 +255,39 @@ InstDistinct(hint, r, iv, c) ==
 \* the case a valuation belongs to
 CaseOK(v, r, iv, c) == /\ Inj(v, Rng(iv.vars))
                        /\ IF c < Len(iv.vars) THEN v[r.param] = v[iv.vars[c + 1]] ELSE \A p \in Rng(iv.vars) : v[r.param] # v[p]
-\* the hypothesis a hint is documented to provide, at one state and valuation
-HypDoc(r, iv, hint, h, e) ==
-  IF hint.k = "GUARD" THEN EvalB(r.guard, e)
+\* the hypothesis a hint is documented to provide, at one state and valuation (gd = the guard's value there)
+HypDoc(r, iv, hint, h, e, gd) ==
+  IF hint.k = "GUARD" THEN gd
   ELSE IF hint.k = "PRE" THEN EvalB(iv.prop, e)
   ELSE /\ EvalB(h.prop, [e EXCEPT !.pv = [p \in Rng(h.vars) |-> e.pv[hint.inst[Pos(h.vars, p)]]] @@ e.pv])
-       /\ EvalB(r.guard, e)
-\* what the state may be assumed to satisfy when the hint is used in an inductive argument
-HypInd(r, iv, hint, h, e) ==
-  /\ EvalB(r.guard, e)
+       /\ gd
+\* what the state may be assumed to satisfy when the hint is used in an inductive argument: the guard, and for PRE the same
+\* instance of the invariant, for INV every instance (pairwise distinct processes) of the invariant used (hall)
+HypInd(r, iv, hint, e, gd, hall) ==
+  /\ gd
   /\ hint.k = "PRE" => EvalB(iv.prop, e)
-  /\ hint.k = "INV" => InvAt(h, e.sig, e.st)
+  /\ hint.k = "INV" => hall
 \* parameters a goal is evaluated under
 GoalParams(r, iv, hint, goals, sig) ==
   ({r.param} \cup Rng(iv.vars) \cup Rng(hint.inst) \cup UNION { NamesIn(g) : g \in goals }) \ VarNames(sig)
-\* facts about (goal, goal with the enumeration replaced by numbers) over a scope:
-\*   <<goal true, second goal true, valuation in the case, documented hypothesis, inductive hypothesis, invariant after the step>>
-GoalFacts(g1, g2, r, iv, c, hint, hv, sig) ==
-  LET P == GoalParams(r, iv, hint, {g1, g2}, sig) IN
-  { LET e == Env(sig, st, v)
-        inc == CaseOK(v, r, iv, c)
-        aft == IF inc THEN EvalB(iv.prop, Env(sig, Exec(r, e), v)) ELSE TRUE
-    IN << EvalB(g1, e), EvalB(g2, e), inc, HypDoc(r, iv, hint, hv, e), HypInd(r, iv, hint, hv, e), aft >>
-    : st \in States(sig), v \in [P -> 1..sig.N] }
+\* facts about (goal g1, goal g2 with the enumeration replaced by numbers; same = they are known to mean the same) over a scope:
+\*   <<g1 true, g2 true, valuation in the case, documented hypothesis, inductive hypothesis, invariant after the step>>
+GoalFacts(g1, g2, same, r, iv, c, hint, hv, sig) ==
+  LET VS == [GoalParams(r, iv, hint, {g1, g2}, sig) -> 1..sig.N] IN
+  UNION { LET hall == IF hint.k = "INV" THEN InvAt(hv, sig, st) ELSE TRUE IN
+          { LET e == Env(sig, st, v)
+                inc == CaseOK(v, r, iv, c)
+                gd == EvalB(r.guard, e)
+                v1 == EvalB(g1, e)
+                aft == IF inc THEN EvalB(iv.prop, Env(sig, Exec(r, e), v)) ELSE TRUE
+            IN << v1, IF same THEN v1 ELSE EvalB(g2, e), inc, HypDoc(r, iv, hint, hv, e, gd), HypInd(r, iv, hint, e, gd, hall), aft >>
+            : v \in VS }
+          : st \in States(sig) }
+\* the enumeration constants of a term replaced by their numbers
+RECURSIVE Numbered(_,_)
+Numbered(t, sig) == IF t[1] = "const" THEN (IF IsEnum(sig, t) THEN Num(EnumIdx(sig, t[2])) ELSE t)
+                    ELSE IF t[1] = "comb" THEN <<"comb", Numbered(t[2], sig), Numbered(t[3], sig)>>
+                    ELSE IF t[1] = "abs" THEN <<"abs", t[2], Numbered(t[3], sig)>> ELSE t
 Valid1(F) == \A f \in F : f[1]
 Valid2(F) == \A f \in F : f[2]
 MeaningOK(F) == \A f \in F : f[3] => (f[1] = (f[4] => f[6]))
